@@ -13,7 +13,8 @@ RULE = ("TLC explores every history of flushes and compaction steps (pick / buil
         "pick and swap) of Compaction.tla for small constants and several compactor settings "
         "(ReadsMatchTruth, TruthRetained, LayoutValid, NewerAboveOlder, CompactionPreservesContents); TLC-simulated "
         "histories are executed on the real sst.Compactor + LevelList.NewWithChangeSet + TableWriter, the real layout "
-        "is projected after every step (Document() + scan of every table) and judged against the last write per key; "
+        "is projected after every step - also between Compact's return and the swap, in the list readers still use - "
+        "(Document() + scan of every table) and judged against the last write per key; "
         "the projected layouts are validated again by TLC (CompactionTrace.tla)")
 
 INVS = ["ReadsMatchTruth", "TruthRetained", "LayoutValid", "NewerAboveOlder", "TypeOK"]
@@ -196,7 +197,7 @@ def run(c):
     r1, _, _ = enumerate_and_replay(c, dict(BASE, Settings={1, 2}, AllowTombs=False, MaxFlush=3, MaxCompact=3),
                                     "all histories: 3 keys, puts only, settings 1,2")
     need(c, r1, "picks_taking_part_of_a_level_ge1", "states_middle_and_base_populated", "states_multi_table_level",
-         "flushes_between_pick_and_swap", "fixpoint_swaps")
+         "flushes_between_pick_and_swap", "fixpoint_swaps", "builds_observed")
     enumerate_and_replay(c, dict(BASE, Settings={2, 4}, NKeys=2, MaxFlush=3, MaxCompact=4),
                          "all histories: 2 keys, tombstones, settings 2,4")
     enumerate_and_replay(c, dict(BASE, Settings={4}, NKeys=2, NLevels=4, MaxFlush=4, MaxFlushKeys=1, MaxCompact=6),
